@@ -60,7 +60,10 @@ def run(tier):
             for k in ("perm_est", "perm_sd2", "trans_est", "trans_sd", "lin_est", "lin_sd", "drift_est", "drift_sd"):
                 if k in ob:
                     counts[k] = counts.get(k, 0) + 1
-                    if not (ob[k] <= TOL):
+                    # a translation by ~100 units multiplies the condition number of the drift block by ~shift^(2 x order):
+                    # the round-off of an exactly invariant result grows accordingly (1.8e-8 measured with a quadratic drift)
+                    tol = TOL if not k.startswith("trans_") else {"QUAD": 1e-6, "LIN": 1e-8}.get(cfg["drift"], TOL)
+                    if not (ob[k] <= tol):
                         fails.append(k)
             if "sumw" in ob and ob["sumw_n"] > 0:
                 counts["sumw"] = counts.get("sumw", 0) + 1
